@@ -739,7 +739,19 @@ class FlowModel:
         if weights_file is None:
             weights_file = self.weights_file
         logger.debug(f"Reloading weights from {weights_file}")
-        self.load_weights(weights_file)
+        try:
+            self.load_weights(weights_file)
+        except Exception as e:
+            # The weights file may be incomplete if the sampler was killed
+            # whilst it was being written, see `save_weights`.
+            old_weights_file = weights_file + ".old"
+            if not os.path.exists(old_weights_file):
+                raise
+            logger.warning(
+                f"Could not load weights from {weights_file} ({e}), "
+                f"trying {old_weights_file}"
+            )
+            self.load_weights(old_weights_file)
 
     def reset_model(self, weights=True, permutations=False):
         """
